@@ -115,7 +115,7 @@ Section RT.
   Theorem roundtrip_partial_thm P cli fs dflt s ftok s' oc :
     checker T P = true ->
     find_opt (p_cfgopt P) = Some oc -> o_cli oc = true ->
-    (forall a c, In (a, c) (prog_aliases P) -> mem a (w_skip W) = true) ->
+    (forall a c, In (a, c) (prog_aliases P) -> mem a (w_skip W) = true \/ s_vm s a = None) ->
     w_precise W = true ->
     parse T wf P cli fs dflt = Run s ->
     reload T wf W zerotok round6 P s ftok = Run s' ->
@@ -163,8 +163,9 @@ Section RT.
       { unfold alias_of in AO. destruct (find _ (prog_aliases P)) as [[a' c']|] eqn:F; [|discriminate].
         cbn in AO. injection AO as <-. apply find_some in F as [F1 F2]. cbn in F2. apply String.eqb_eq in F2. now subst. }
       rewrite occurs_lines, lines_none; [assumption|].
-      intros o' I' E'. unfold save_opt. destruct (s_vm s (o_name o')) as [[v' d']|]; [|reflexivity].
-      now rewrite E', (SKal _ _ Ia).
+      intros o' I' E'. unfold save_opt. destruct (SKal _ _ Ia) as [SK'|VN].
+      + destruct (s_vm s (o_name o')) as [[v' d']|]; [|reflexivity]. now rewrite E', SK'.
+      + now rewrite E', VN.
   Qed.
   (** checker of the writer rules (with the list of options that are deliberately not reproduced) *)
   Definition checker13 (P : prog) (exempt : list string) : bool :=
@@ -193,7 +194,7 @@ Section RT.
     pose proof (FA o Io) as K. rewrite Co, To, Ex in K. cbn in K. apply andb_prop in K as [K1 K2].
     apply negb_true_iff in K1.
     eapply roundtrip_partial_thm; eauto.
-    - intros a c I. exact (AS (a, c) I).
+    - intros a c I. left. exact (AS (a, c) I).
     - intro E. rewrite E in Ex. congruence.
   Qed.
 End RT.
